@@ -18,11 +18,17 @@ type solverDef struct {
 	prep func(q string) string
 }
 
+var solverSeed = 0
+
 var solvers = []solverDef{
-	{"z3-4.8.12", func(f string, t int) []string { return []string{"/usr/bin/z3", fmt.Sprintf("-T:%d", t), f} }, nil},
-	{"z3-5.1.0", func(f string, t int) []string { return []string{"z3-new", fmt.Sprintf("-T:%d", t), f} }, nil},
+	{"z3-4.8.12", func(f string, t int) []string {
+		return []string{"/usr/bin/z3", fmt.Sprintf("-T:%d", t), fmt.Sprintf("smt.random_seed=%d", solverSeed), fmt.Sprintf("sat.random_seed=%d", solverSeed), f}
+	}, nil},
+	{"z3-5.1.0", func(f string, t int) []string {
+		return []string{"z3-new", fmt.Sprintf("-T:%d", t), fmt.Sprintf("smt.random_seed=%d", solverSeed), fmt.Sprintf("sat.random_seed=%d", solverSeed), f}
+	}, nil},
 	{"cvc5-1.0", func(f string, t int) []string {
-		return []string{"cvc5", fmt.Sprintf("--tlimit=%d", t*1000), "--lang=smt2", f}
+		return []string{"cvc5", fmt.Sprintf("--tlimit=%d", t*1000), fmt.Sprintf("--seed=%d", solverSeed), "--lang=smt2", f}
 	}, nil},
 }
 
